@@ -2,6 +2,7 @@
   C09 - Exporter never emits an invalid, oversized or silently altered message.
 -/
 import IpfixModel.Props.C08
+import IpfixModel.Model.RecordBuf
 namespace Ipfix.C09
 open ExpSpec
 
@@ -231,5 +232,20 @@ theorem every_sent_message_parses (st st' : ExpState) (time : Nat) (s : SetB) (n
   have hh : s.updateLen.header = be 2 sid ++ be 2 s.updateLen.length := by simp [SetB.updateLen, hhdr]
   obtain ⟨m, h1, h2, h3, h4, h5, h6, h7, h8, h9⟩ := C02.wire_header s.updateLen st.dom st'.seq time sid w hc hi' hh hsid hd hs' ht
   exact ⟨m, h1, h2, h3, size_bound st st' time s hi n w h, hn, h4, h5, h6, h7, h8, by simpa [SetB.updateLen] using h9⟩
+
+/-! ## Finding D5, exactly: what the code transmits where the specification encoder refuses -/
+
+/-- Finding D5 with the exact model of `dataRecord.GetBuffer()` (`recordBuf`, Model/RecordBuf.lean,
+    tied to the code by the differential run `ie recbuf` of C15): a record port 443, an IPv6
+    address (2001:db8::1) as value of the IPv4 element `sourceIPv4Address`, port 80. The
+    specification encoder refuses it (`encodeRecord = none`, hence `faithful_or_error`: the send
+    must be an error). The code logs the element's error, leaves its four bytes ZERO and sends
+    the record: the collector reads the address 0.0.0.0, silently altered. -/
+theorem d5_exact_witness :
+    ∃ es : List Elem, encodeRecord es = none ∧ recordBuf es = [1, 187, 0, 0, 0, 0, 0, 80] :=
+  ⟨[(⟨"sourceTransportPort", 7, .unsigned16, 0, 2⟩, .num 443),
+    (⟨"sourceIPv4Address", 8, .ipv4Address, 0, 4⟩,
+      .bytes [0x20, 0x01, 0x0d, 0xb8, 0, 0, 0, 0, 0, 0, 0, 0, 0, 0, 0, 1]),
+    (⟨"destinationTransportPort", 11, .unsigned16, 0, 2⟩, .num 80)], by decide, by decide⟩
 
 end Ipfix.C09
